@@ -1,6 +1,9 @@
 package engine
 
-import "fmt"
+import (
+	"fmt"
+	"strings"
+)
 
 // ---------------------------------------------------------------------------------
 // C18 - purge
@@ -55,6 +58,10 @@ func genC18(g *Gen) *Plan {
 	p.Scripts = map[string][]Reply{}
 	for i := 0; i < nkeys; i++ {
 		u := fmt.Sprintf("/g%d", i)
+		if i == 1 && g.p(0.3) {
+			// a key far beyond a kilobyte (a long query string)
+			u += "?q=" + strings.Repeat("0123456789abcdef", 80)
+		}
 		uris = append(uris, u)
 		var s []Reply
 		for j := 0; j < 8; j++ {
